@@ -85,7 +85,8 @@ def doIdx (f : List String) : String :=
     match parseCont cont, parseEKind ek, l.toNat?, parseArg ik cv v with
     | some c, some ek, some len, some a =>
       let write := rw == "w"
-      let conv := if write then Gen.IndexArms.placeConverts else Gen.IndexArms.readConverts
+      let conv : Conv := ⟨if write then Gen.IndexArms.placeConverts else Gen.IndexArms.readConverts,
+        Gen.IndexArms.constConvChecks⟩
       match indexOutcome conv c len write a with
       | .cerr => "cerr"
       | .panic => "panic"
@@ -123,7 +124,7 @@ def doSlc (f : List String) : String :=
     match parseCont cont, l.toNat?, c.toNat?, parseBound lo, parseBound hi, parseBound mx with
     | some ct, some len, some cap, some lo, some hi, some mx =>
       let three := mx.isSome
-      match sliceOutcome Gen.IndexArms.sliceConverts ⟨ct, len, cap, lo, hi, mx, three⟩ with
+      match sliceOutcome ⟨Gen.IndexArms.sliceConverts, Gen.IndexArms.constConvChecks⟩ ⟨ct, len, cap, lo, hi, mx, three⟩ with
       | .cerr => "cerr"
       | .panic => "panic"
       | .ok r =>
